@@ -67,7 +67,7 @@ def run_extract():
         rc, out, err = sh(["go", "build", "-o", exe, "."], cwd=src, env=GOENV)
         if rc != 0:
             return False, "extractor build failed: " + err[-2000:]
-        rc, out, err = sh([exe, "-repo", REPO, "-out", LEAN + "/Relay/Extracted"], env=GOENV, timeout=300)
+        rc, out, err = sh([exe, "-repo", REPO, "-out", LEAN + "/Relay/Extracted", "-anchors", V + "/extract/anchors.json"], env=GOENV, timeout=300)
         if rc != 0:
             return False, "extractor failed: " + (out + err)[-2000:]
     return True, out.strip()
